@@ -1468,7 +1468,7 @@ pub fn property() -> Property {
     Property {
         id: "C12",
         level: "exploration",
-        rule: "generated: sequences of 0..12 events, timestamps base+0..40 (base 0 / 1000 / 1.7e12; domain width 41, 16 or 6) in order, reversed or shuffled, payload fields Integer / Number(k/4) / String / Boolean / Null / missing; duration 1..25 ms; cap 1..12; for StreamAlphaNode a non-decreasing injected clock = running max of (timestamp + lag), lag 0..4 or slightly negative. The *-orders-a parts enumerate every arrival order of 5 (quick) or 6 (thorough) events x durations {1,3,10} x caps {12,2} x every gap pattern over {0,1,3,7} ({0,2,5} for StreamAlphaNode, x sliding/tumbling); *-orders-b the same with durations {2,5,25}, caps {3,1}, gaps {0,2,4,11} ({0,1,6}), first timestamp 1000. Oracles: ws = WindowedStream::new tumbling (every event in exactly one window [k*w, k*w+w) containing its timestamp; window content = the events of that interval, modulo cap); wm = WindowManager tumbling, judged right after each process_event relative to the windows observed before it; tw = TimeWindow::add_event half-open span test; record = TimeWindow::record, after each step nothing older than t-d is held and everything else of (previous content + new event) is, modulo cap; san = StreamAlphaNode::process_event under the injected clock (acceptance, buffer content relative to the clock's window, modulo cap); agg = count/sum/average/min/max of TimeWindow, Aggregator and operators::{Count,Sum,Average,Min,Max} against a harness fold over window.events(). 'modulo cap': with more than cap events belonging, exactly cap are held and the missing ones are oldest by arrival or by timestamp. Non-trivial: an out-of-order pair inside one window span, or an event exactly on a window boundary (t = start, t = end / cutoff), or the cap exceeded (san: additionally at least one accepted event; agg: a window with >= 2 events whose queried field mixes numeric and non-numeric/missing values). Distinct by (duration, cap, window type, timestamp and clock sequence).",
+        rule: "generated: sequences of 0..12 events, timestamps base+0..40 (base 0 / 1000 / 1.7e12; domain width 41, 16 or 6) in order, reversed or shuffled, payload fields Integer / Number(k/4) / String / Boolean / Null / missing; duration 1..25 ms; cap 1..12; for StreamAlphaNode a non-decreasing injected clock = running max of (timestamp + lag), lag 0..4 or slightly negative. The *-orders-a parts enumerate every arrival order of 5 (quick) or 6 (thorough) events x durations {1,3,10} x caps {12,2} x every gap pattern over {0,1,3,7} ({0,2,5} for StreamAlphaNode, x sliding/tumbling); *-orders-b the same with durations {2,5,25}, caps {3,1}, gaps {0,2,4,11} ({0,1,6}), first timestamp 1000. Oracles: ws = WindowedStream::new tumbling (every event in exactly one window [k*w, k*w+w) containing its timestamp; window content = the events of that interval, modulo cap); wm = WindowManager tumbling, judged right after each process_event relative to the windows observed before it; tw = TimeWindow::add_event half-open span test; record = TimeWindow::record, after each step nothing older than t-d is held and everything else of (previous content + new event) is, modulo cap; san = StreamAlphaNode::process_event under the injected clock (acceptance, buffer content relative to the clock's window, modulo cap); agg = count/sum/average/min/max of TimeWindow, Aggregator and operators::{Count,Sum,Average,Min,Max} against a harness fold over window.events(). 'modulo cap': with more than cap events belonging, exactly cap are held and the missing ones are oldest by arrival or by timestamp. Non-trivial: an out-of-order pair inside one window span, or an event exactly on a window boundary (t = start, t = end / cutoff), or the cap exceeded (san: additionally at least one accepted event; agg: a window with >= 2 events whose queried field mixes numeric and non-numeric/missing values). Distinct by (duration, cap, window type, timestamp and clock sequence). Sub-millisecond rests (1 case in 3, a pure function of the case): ws / wm repeat the run with duration D ms + r us and judge what every reading shares (windows pairwise disjoint, every held event inside its window and held once, none lost below the cap); record runs with D ms + r us and the unchanged model (for whole-ms timestamps 'older than D + r' is 'older than D'). agg: 1 case in 4 turns Number(k/4) payloads with 3 | k into +inf (or -inf; one sign per case).",
         assumptions: vec![
             "NaN / infinite payloads and durations below 1 ms are outside the quantifier".into(),
             "timestamps stay far from u64::MAX (start + duration and now + 1 are computed without overflow checks)".into(),
